@@ -76,6 +76,8 @@ var targets = []string{
 	"RouterJSR311.detectDispatcher",
 	"RouterJSR311.SelectRoute",
 	"wantsCompressedResponse",
+	"Container.addHandler",
+	"WebService.RemoveRoute",
 	"RouterJSR311.extractParams",
 	"RouterJSR311.ExtractParameters",
 	"CrossOriginResourceSharing.isOriginAllowed",
@@ -192,6 +194,9 @@ func leanType(e ast.Expr) string {
 	case *ast.MapType:
 		if leanType(x.Key) == "Str" && leanType(x.Value) == "Str" {
 			return "List (Str × Str)"
+		}
+		if leanType(x.Key) == "Str" && src(x.Value) == "bool" {
+			return "List Str" // a set: only `m[k] = true` and reads are translated
 		}
 	case *ast.SelectorExpr:
 		if src(x) == "bytes.Buffer" {
@@ -528,6 +533,14 @@ func (t *tr) expr(e ast.Expr) (string, bool) {
 		}
 		fail("binary %s", x.Op)
 	case *ast.IndexExpr:
+		if mt, ok := resolve(t.typeOf(x.X)).(*ast.MapType); ok {
+			if src(mt.Value) == "bool" {
+				a, m1 := t.expr(x.X)
+				k, m2 := t.expr(x.Index)
+				return "(List.contains " + a + " " + k + ")", m1 || m2
+			}
+			fail("read of the map %s", src(x.X))
+		}
 		a, _ := t.expr(x.X)
 		i, _ := t.expr(x.Index)
 		return "(← at? " + a + " " + i + ")", true
@@ -763,6 +776,13 @@ func (t *tr) assign(ind int, lhs ast.Expr, val string) {
 			fail("indexed assignment %s", src(lhs))
 		}
 		k, _ := t.expr(l.Index)
+		if mt, ok := resolve(t.varType(m.Name)).(*ast.MapType); ok && src(mt.Value) == "bool" {
+			if val != "true" {
+				fail("a map[string]bool is translated as a set: only `m[k] = true` is allowed, not %s", val)
+			}
+			t.line(ind, "%s := setAdd %s %s", t.lname(m.Name), t.lname(m.Name), k)
+			return
+		}
 		t.line(ind, "%s := mapSet %s %s %s", t.lname(m.Name), t.lname(m.Name), k, val)
 	default:
 		fail("assignment to %s", src(lhs))
@@ -839,7 +859,17 @@ func (t *tr) stmt(ind int, s ast.Stmt) {
 			op = "-"
 		}
 		t.assign(ind, x.X, fmt.Sprintf("%s %s (1 : Int)", v, op))
+	case *ast.DeferStmt:
+		if isLockCall(x.Call) {
+			return
+		}
+		fail("defer %s", src(x.Call))
 	case *ast.ExprStmt:
+		if c, ok := x.X.(*ast.CallExpr); ok && isLockCall(c) {
+			// Lock / Unlock of a mutex field: no effect on what a single call computes; that every access
+			// holds its lock is the subject of the generated facts of C12
+			return
+		}
 		if c, ok := x.X.(*ast.CallExpr); ok && t.effectStmt(ind, c) {
 			return
 		}
@@ -930,9 +960,7 @@ func (t *tr) stmt(ind int, s ast.Stmt) {
 			t.line(ind, "return %s", tuple(t.mutNames()))
 			return
 		}
-		if len(mutates[t.key]) > 0 && len(t.results) > len(mutates[t.key]) {
-			fail("results next to changed parameters")
-		}
+
 		if len(x.Results) == 0 {
 			if len(t.named) == 0 {
 				fail("bare return without named results")
@@ -944,7 +972,7 @@ func (t *tr) stmt(ind int, s ast.Stmt) {
 			t.line(ind, "return %s", tuple(ns))
 			return
 		}
-		if len(x.Results) == 1 && len(t.results) > 1 {
+		if len(x.Results) == 1 && len(t.results)-len(mutates[t.key]) > 1 {
 			// return f(…) of a function with as many results
 			c, ok := x.Results[0].(*ast.CallExpr)
 			if !ok || len(t.resultTypes(c)) != len(t.results) {
@@ -954,7 +982,7 @@ func (t *tr) stmt(ind int, s ast.Stmt) {
 			t.line(ind, "return %s", v)
 			return
 		}
-		if len(x.Results) != len(t.results) {
+		if len(x.Results)+len(mutates[t.key]) != len(t.results) {
 			fail("return of a call with several results")
 		}
 		var vs []string
@@ -966,6 +994,7 @@ func (t *tr) stmt(ind int, s ast.Stmt) {
 			v, _ := t.expr(r)
 			vs = append(vs, v)
 		}
+		vs = append(vs, t.mutNames()...)
 		t.line(ind, "return %s", tuple(vs))
 	case *ast.BlockStmt:
 		t.line(ind, "do")
@@ -985,6 +1014,31 @@ func (t *tr) mutNames() []string {
 		}
 	}
 	return ns
+}
+
+// isLockCall: x.f.Lock() / RLock() / Unlock() / RUnlock() on a field whose declared type is a sync mutex
+func isLockCall(c *ast.CallExpr) bool {
+	sel, ok := c.Fun.(*ast.SelectorExpr)
+	if !ok || len(c.Args) != 0 {
+		return false
+	}
+	switch sel.Sel.Name {
+	case "Lock", "RLock", "Unlock", "RUnlock":
+	default:
+		return false
+	}
+	f, ok := sel.X.(*ast.SelectorExpr)
+	if !ok {
+		return false
+	}
+	for _, fields := range structFields {
+		if ty, ok := fields[f.Sel.Name]; ok {
+			if s := src(ty); s == "sync.RWMutex" || s == "sync.Mutex" {
+				return true
+			}
+		}
+	}
+	return false
 }
 
 func tuple(vs []string) string {
@@ -1397,8 +1451,8 @@ func translate(key string) (text string, why string) {
 			}
 		}
 	}
-	if len(mutates[key]) > 0 && len(t.results) == 0 {
-		// the final values of the changed parameters are the result
+	if len(mutates[key]) > 0 {
+		// the final values of the changed parameters are appended to the result
 		for _, m := range mutates[key] {
 			var ty ast.Expr
 			if m == t.recv && fd.Recv != nil {
